@@ -96,16 +96,17 @@ func vC13Session(c vSx) (res vC13Result) {
 	setupW := func(conn *Conn) {
 		W = conn
 		W.SetWriteDeadline(time.Now().Add(90 * time.Second))
-		if W.newCompressionWriter == nil {
+		if !vC13HasCompW(W) {
 			return
 		}
 		{
-		orig := W.newCompressionWriter
-		W.newCompressionWriter = func(w io.WriteCloser, level int) io.WriteCloser {
+		factory := vC13CompW(W)
+		orig := *factory
+		*factory = func(w io.WriteCloser, level int) io.WriteCloser {
 			r := orig(w, level)
 			tapId++
-			if fww, ok := r.(*flateWriteWrapper); ok {
-				fww.fw.Reset(&vC13Tap{inner: fww.tw, log: &tapLog, ids: &tapIds, id: tapId})
+			if fw, trunc, ok := vC13FlateParts(r); ok {
+				fw.Reset(&vC13Tap{inner: trunc, log: &tapLog, ids: &tapIds, id: tapId})
 			}
 			return r
 		}
@@ -254,10 +255,10 @@ func vC13Session(c vSx) (res vC13Result) {
 					fw.Flush()
 					ch = tl
 				}
-				before := len(pm.frames)
+				before := vC13PreparedFrames(pm)
 				f0 := frameCount()
 				code = vC13Code(W.WritePreparedMessage(pm))
-				hit := len(pm.frames) == before
+				hit := vC13PreparedFrames(pm) == before
 				if !srvWrites {
 					f1 := frameCount()
 					for len(skipKeys) < f0 {
@@ -418,7 +419,7 @@ func vC13Session(c vSx) (res vC13Result) {
 			bad("handshake-ext", "no_context_takeover parameters missing: "+ext)
 		}
 	}
-	if (W.newCompressionWriter != nil) != comp || (R.newDecompressionReader != nil) != comp {
+	if vC13HasCompW(W) != comp || vC13HasDecompR(R) != comp {
 		bad("handshake-ext", "negotiated compression differs from the request")
 	}
 
